@@ -55,6 +55,11 @@ class FnTranslator:
         self.events = cfg.get("events", {})  # "model.step" -> int
         self.skip_calls = set(cfg.get("skip_calls", []))  # "logger.info"
         self.skip_assign_calls = cfg.get("skip_assign_calls", [])  # names whose RHS is opaque
+        # C17 (VI branch): `x = obj.method(kw=<int expr>)` recorded as the event code followed by the integer argument,
+        #   {"samples": {"call": "model.sample", "code": 4, "kwarg": "num_samples"}}
+        self.event_assigns = cfg.get("event_assigns", {})
+        # C17 (VI branch): `for y in x:` over an opaque list whose LENGTH is the named extra parameter, {"samples": "returned"}
+        self.len_iterables = cfg.get("len_iterables", {})
         self.fuel = cfg.get("fuel", {})  # while index -> Lean expr over st
         self.locals = []
         self.whiles = []  # (name, cond, bodyfn) definitions emitted before main
@@ -91,7 +96,7 @@ class FnTranslator:
 
     def _is_opaque_assign(self, node):
         if isinstance(node, ast.Assign) and len(node.targets) == 1 and isinstance(node.targets[0], ast.Name):
-            return node.targets[0].id in self.skip_assign_calls
+            return node.targets[0].id in self.skip_assign_calls or node.targets[0].id in self.event_assigns
         return False
 
     # ---- expressions ----------------------------------------------------------------
@@ -209,6 +214,16 @@ class FnTranslator:
     def stmt(self, s, ind):
         pad = " " * ind
         if isinstance(s, ast.Assign):
+            if len(s.targets) == 1 and isinstance(s.targets[0], ast.Name) and s.targets[0].id in self.event_assigns:
+                ea = self.event_assigns[s.targets[0].id]
+                v = s.value
+                if not (isinstance(v, ast.Call) and self.dotted(v.func) == ea["call"] and not v.args
+                        and len(v.keywords) == 1 and v.keywords[0].arg == ea["kwarg"]):
+                    raise TranslateError("event assignment %s is not %s(%s=...)" % (s.targets[0].id, ea["call"], ea["kwarg"]))
+                divs = []
+                a = self.expr(v.keywords[0].value, divs)
+                self._set_arity(1)
+                return "{ st with out := st.out ++ [(%d : Int), %s]%s }" % (ea["code"], a, self.errupd(divs))
             if self._is_opaque_assign(s):
                 self.opaque[s.targets[0].id] = ast.unparse(s.value)
                 return None
@@ -245,9 +260,12 @@ class FnTranslator:
                 if divs:
                     raise TranslateError("division in range")
                 return "List.foldl (fun (st : St) (v : Int × Int) =>\n%s  let st : St := { st with %s := v.1, %s := v.2 }\n%s)\n%s  st (List.zip %s %s)" % (pad + "    ", n1, n2, body, pad, r1, r2)
-            if not isinstance(s.iter, ast.Call):
+            if isinstance(s.iter, ast.Name) and s.iter.id in self.len_iterables:
+                r = "(pyRange 0 st.%s 1)" % lean_name(self.len_iterables[s.iter.id])
+            elif not isinstance(s.iter, ast.Call):
                 raise TranslateError("for iterable")
-            r = self.range_expr(s.iter, divs)
+            else:
+                r = self.range_expr(s.iter, divs)
             if divs:
                 raise TranslateError("division in range")
             body = self.block(s.body, ind + 6)
